@@ -9,7 +9,13 @@ VDB_RULE = ("vdb stream: one evaluation = one operation (commit on frontier / on
             "abandoned, unknown, wrong-height or zero id, get, has, ordered prefix scan, put, delete, snapshot, subset, changes, "
             "apply) executed on a real NewLevelDBManager / NewMemDB and replayed through the Lean model; keys share prefixes, "
             "values include empty and [0]; every open view is re-validated in full against a shadow map after later "
-            "commits/pops; distinct = distinct (op,result) lines")
+            "commits/pops; scans are taken as the store's iterator delivers them (nothing filtered by the harness) and every "
+            "scan of every view (frontier, historical, snapshot, subset) is checked model-free against Get/Has of the same "
+            "view on every key the sequence ever generated — no present key missing, no absent key listed, ascending order — "
+            "and against the shadow; every 40th sequence a directed scenario delivers the inputs of the two repaired scan "
+            "defects (key holding the empty value at X scanned from below the frontier, 734ff49; keys created after X / rolled "
+            "back scanned at X and at the frontier, 522bff7) with random keys, through views, snapshots with own writes and "
+            "subsets; distinct = distinct (op,result) lines")
 
 LEDGER_RULE = ("ledger stream: one evaluation = one line: an accepted account block of a generated history on a real node "
                "(transfers with boundary amounts and unknown tokens, receives by addressee / third account / repeated, token "
@@ -169,8 +175,8 @@ PROPS = {
         "streams": [S("vdb", 400, 20000)],
         "rule": VDB_RULE,
         "partial": "concurrency (readers vs writer) is not modelled: sequential model + mutex/snapshot isolation trusted; "
-                   "the l1/l2 caches are not in the model (cache-free reconstruction), the cached code is compared by correspondence; "
-                   "historical scans drop empty-valued keys (known finding F3b)",
+                   "the l1/l2 caches are not in the model (cache-free reconstruction), the cached code is compared by correspondence "
+                   "(scan theorems at full strength since 734ff49: former finding F3b, historical scans dropping empty-valued keys, is fixed)",
         "assumptions": ["goleveldb snapshot isolation and memdb thread-safety", "sequential executions only"],
     },
     "C02": {
